@@ -3,11 +3,13 @@
    uncut read carries the state uniseg.Step returned.  Proved here, over the transition table generated from
    the library's source: that carried state is always the state a fresh start computes for the next
    character, so the next cluster - byte length, width, new state - and the reader's next token are the same
-   either way.  C08_grapheme_cut_partial: the full clause ("the screens after reading a ++ b whole and after
-   reading a, then b, are equal when a token boundary of the whole read falls at |a|") additionally needs
-   that the tokens of a alone are the tokens of a ++ b up to |a| (prefix stability of the loop of Step
-   under extension of the buffer); that part is decided by the segmentation engine and by the correspondence
-   of cut streams with the model, not by a theorem.  Statements only. *)
+   either way (C08_grapheme_cut_partial, C08_grapheme_cut_token).  C08_token_prefix: a token of a ++ b that ends
+   inside a is the token of a alone (prefix stability of the loop of Step under extension of the buffer).
+   C08_grapheme_cut_text puts them together for a run of text: if the tokens of a ++ b have a boundary at |a|,
+   reading a and then b yields the same tokens, the same final reader state and the same bytes left as reading
+   a ++ b whole.  The screens are a fold of the token execution over these tokens; escape sequences between runs
+   of text are covered by the monotonicity theorems of C08.v (they do not depend on the text mode), and ReadByte
+   resets the segmentation state in both readings.  Statements only. *)
 From Coq Require Import List ZArith Bool.
 From Termemu Require Import Base Parser Gen_Uniseg Uniseg Grapheme SegCutProofs.
 Import ListNotations.
@@ -36,6 +38,49 @@ Theorem C08_grapheme_cut_token : forall buf st c w g p fm ri, ustep buf st = (c,
   next_grapheme_token (zskipn c buf) (mkRs (Some (g, p)) fm ri) = next_grapheme_token (zskipn c buf) (mkRs None fm ri).
 Proof. exact next_token_after_boundary. Qed.
 Print Assumptions C08_grapheme_cut_token.
+
+(* a token of x ++ b that ends inside x is the token of x alone; [aligned x]: x is made of whole UTF-8 decoding
+   steps (no character is cut at its end - a cut inside a character is a cut inside a cluster) *)
+Theorem C08_token_prefix : forall x b rs tk, aligned x -> x <> [] ->
+  next_grapheme_token (x ++ b) rs = Some tk -> tt_len tk <= zlen x ->
+  exists tk', next_grapheme_token x rs = Some tk' /\
+    tt_len tk' = tt_len tk /\ tt_width tk' = tt_width tk /\ tt_merge tk' = tt_merge tk /\
+    rs_fm (tt_rs tk') = rs_fm (tt_rs tk) /\ rs_ri (tt_rs tk') = rs_ri (tt_rs tk) /\
+    (tt_len tk < zlen x -> rs_state (tt_rs tk') = rs_state (tt_rs tk) /\ aligned (zskipn (tt_len tk) x)) /\
+    (tt_len tk = zlen x -> rs_state (tt_rs tk') = None).
+Proof. exact token_prefix. Qed.
+Print Assumptions C08_token_prefix.
+
+(* The grapheme clause for a run of text.  [toks buf rs l rs' rest]: reading buf from reader state rs yields the tokens
+   l (bytes, width, merge flag each), ends in state rs' and leaves rest (nothing, or an incomplete character).
+   If the tokens of a ++ b have a boundary at |a| - the cut does not fall inside a cluster - then a alone yields the
+   tokens before the boundary and leaves nothing, and b, read from the state the reader has after a read boundary
+   (segmentation restarted, merge flags kept), yields the remaining tokens, the same final state, the same rest. *)
+Theorem C08_grapheme_cut_text : forall l1 a b rs l2 rs' rest, aligned a -> b <> [] -> rs_ok rs (a ++ b) ->
+  toks (a ++ b) rs (l1 ++ l2) rs' rest -> toks_len l1 = zlen a ->
+  exists rs1, toks a rs l1 rs1 [] /\ toks b (rs_reset_state rs1) l2 rs' rest.
+Proof. exact toks_cut. Qed.
+Print Assumptions C08_grapheme_cut_text.
+
+(* every state the reader is ever in satisfies rs_ok: the initial one, the one after ReadByte, and by
+   C08_token_state the one after every token *)
+Theorem C08_token_state : forall buf rs tk, next_grapheme_token buf rs = Some tk -> rs_ok (tt_rs tk) (zskipn (tt_len tk) buf).
+Proof. exact token_state_ok. Qed.
+Print Assumptions C08_token_state.
+
+(* non-vacuity of C08_grapheme_cut_text: 'e' U+0301 | 'x', cut between the two clusters *)
+Example C08_grapheme_cut_text_example :
+  let a := [101; 204; 129] in let b := [120] in
+  aligned a /\ b <> [] /\ rs_ok rs0 (a ++ b) /\
+  toks (a ++ b) rs0 ([(3, 1, false)] ++ [(1, 1, false)]) rs0 [] /\ toks_len [(3, 1, false)] = zlen a.
+Proof.
+  cbv zeta. repeat split.
+  - eapply (al_cons _ 101 1 true); [reflexivity|]. eapply (al_cons _ 769 2 true); [reflexivity|]. apply al_nil.
+  - discriminate.
+  - apply (toks_step _ _ (mkTtok 3 1 false (mkRs (Some (0, 1)) false false))); [discriminate|vm_compute; reflexivity|].
+    apply (toks_step _ _ (mkTtok 1 1 false (mkRs None false false))); [discriminate|vm_compute; reflexivity|].
+    apply toks_stop. left. reflexivity.
+Qed.
 
 (* non-vacuity: a flag followed by a ZWJ sequence: the state carried over the boundary between them *)
 Example C08_grapheme_cut_example :
